@@ -490,6 +490,8 @@ pub fn run_dynamic(case: &Case, src: &str) -> ImpRun {
         panicked |= bl[0].starts_with("bind panic");
         lines.borrow_mut().extend(bl);
         if let Some(tc) = tc {
+            // every other case runs on a clone of the bound test: a copy must behave like the original
+            let tc = if case.drv_seed % 2 == 0 { tc.clone() } else { tc };
             let virt: Vec<(SigSpec, Signal)> = if case.tags.contains(&"echo-virtual") {
                 tc.signals
                     .iter()
